@@ -7,7 +7,7 @@ from vlib import (Inconclusive, Scratch, Verdict, copy_specs, go_build, log, par
 
 FAMILY = "console"
 VC = {"level": ["lvl-info", "lvl-warn", "lvl-custom", "lvl-num"], "time": ["time-rfc", "time-bad", "time-unix"], "message": ["msg"], "caller": ["caller"]}
-GENERIC = ["plain", "quote", "int", "floatexp", "bool", "null", "obj", "arr"]
+GENERIC = ["plain", "quote", "int", "floatexp", "bool", "null", "obj", "arr", "objpct", "arrpct", "pct"]
 
 
 def cases_of(r, rng, default_parts=("time", "level", "caller", "message")):
